@@ -21,14 +21,16 @@ EXPLANATION = (
 )
 
 
-def _order_types():
-    """One representative (s,e,o,p) per weak-order type with s<e and o<p."""
+def _order_types(K=0):
+    """One representative (s,e,o,p) per region of the difference-bound abstraction with
+    constants <= K (K=0: the 13 weak-order types / Allen relations), with s<e and o<p."""
     reps = {}
-    for s, e, o, p in itertools.product(range(4), repeat=4):
+    clip = lambda d: max(-K - 1, min(K + 1, d))
+    for s, e, o, p in itertools.product(range(3 * K + 4), repeat=4):
         if not (s < e and o < p):
             continue
         v = (s, e, o, p)
-        sig = tuple((v[i] > v[j]) - (v[i] < v[j]) for i in range(4) for j in range(i + 1, 4))
+        sig = tuple(clip(v[i] - v[j]) for i in range(4) for j in range(i + 1, 4))
         reps.setdefault(sig, v)
     return list(reps.values())
 
@@ -45,6 +47,7 @@ def _only_compared(fn_node: ast.FunctionDef) -> tuple[bool, str]:
     if len(names) < 4:
         return False, f"endpoint variables not recognised: {sorted(names)}"
     parents = {}
+    offsets = _only_compared.offsets = []
     for n in ast.walk(fn_node):
         for c in ast.iter_child_nodes(n):
             parents[c] = n
@@ -53,6 +56,11 @@ def _only_compared(fn_node: ast.FunctionDef) -> tuple[bool, str]:
             p = parents.get(n)
             while isinstance(p, (ast.Tuple,)):
                 p = parents.get(p)
+            if isinstance(p, ast.BinOp) and isinstance(p.op, (ast.Add, ast.Sub)):
+                other = p.right if p.left is n else p.left
+                if isinstance(other, ast.Constant) and isinstance(other.value, int) and abs(other.value) <= 1 and isinstance(parents.get(p), ast.Compare):
+                    offsets.append(abs(other.value))
+                    continue
             if isinstance(p, ast.Compare):
                 continue
             if isinstance(p, ast.Call) and ast.unparse(p.func) in ("min", "max"):
@@ -73,8 +81,11 @@ def run(ctx):
         raise AnalysisError(f"check_overlap is not comparison-only ({why}); the order-type enumeration would not be exhaustive")
     ctx.note(why)
     it = ctx.fresh_interp()
+    it.step_limit = 10**9
     f = it.closure_of(fi)
-    types = _order_types()
+    K = max(_only_compared.offsets, default=0)
+    types = _order_types(K)
+    ctx.note(f"difference-bound constant K={K}: {len(types)} per-axis regions")
     ctx.require_count("R29.1 order types (Allen relations)", len(types), 13)
     combos = itertools.product(types, repeat=3)
     n = 0
